@@ -56,8 +56,10 @@ def Diagram.locate (d : Diagram) (src tgt : Node) : Diagram × Nat × Nat :=
   let st := findLoop src.id tgt.id d.nodes 0 none none
   let d1 := if st.1.isSome then d else d.addNode src
   let si := st.1.getD d.nodes.length
-  let d2 := if st.2.isSome then d1 else d1.addNode tgt
-  let ti := st.2.getD d1.nodes.length
+  -- a loop on a node that has just been added: `target is source`, the node is not added a second time
+  let loop := st.2.isNone && (tgt.id == src.id)
+  let d2 := if st.2.isSome || loop then d1 else d1.addNode tgt
+  let ti := if loop then si else st.2.getD d1.nodes.length
   (d2, si, ti)
 
 /-- `free_source.pop(0)`; `free_target.pop(0)` on the per-node lists of unused indices -/
